@@ -1740,6 +1740,10 @@ func (vc *VC) rootUsesVisited() bool {
 // loopInsertsInto: some instruction of the function stores into a map of the given type inside a loop that contains
 // this Next (conservative: any MapUpdate on that map type anywhere in the function's loops that contain the Next).
 func (fr *Frame) loopInsertsInto(nx *ssa.Next, mapT types.Type) bool {
+	var ranged ssa.Value
+	if rg, ok := nx.Iter.(*ssa.Range); ok {
+		ranged = rg.X
+	}
 	for _, li := range fr.loops {
 		if !li.body[nx.Block()] {
 			continue
@@ -1747,6 +1751,10 @@ func (fr *Frame) loopInsertsInto(nx *ssa.Next, mapT types.Type) bool {
 		for blk := range li.body {
 			for _, ins := range blk.Instrs {
 				if mu, ok := ins.(*ssa.MapUpdate); ok && types.Identical(mu.Map.Type(), mapT) {
+					// a map created by `make` in this function is a different object from the ranged map (unless it IS the ranged one)
+					if mk, isMake := mu.Map.(*ssa.MakeMap); isMake && ssa.Value(mk) != ranged {
+						continue
+					}
 					return true
 				}
 			}
